@@ -590,11 +590,132 @@ CaseResult run_r(Tape &t)
   return res;
 }
 
+// Fork mode on the real clock: the child is this process continuing after
+// reproc_start returned 0. It writes its pattern, closes stdout and stderr and
+// then lingers (it reads stdin to the end): the parent must see end-of-stream on
+// both output streams while the child is still running, and the child must see
+// end-of-file on stdin when the parent closes it.
+int64_t real_ms()
+{
+  struct timespec ts;
+  clock_gettime(CLOCK_MONOTONIC, &ts);
+  return (int64_t) ts.tv_sec * 1000 + ts.tv_nsec / 1000000;
+}
+
+CaseResult run_f(Tape &t)
+{
+  CaseResult res;
+  vs_init();
+  vs_reset();
+  size_t out_n = (size_t[]){ 0, 1, 4096, 65536, 65537, 200000 }[t.pick(6)];
+  size_t err_n = (size_t[]){ 0, 1, 5000, 70000 }[t.pick(4)];
+  bool err_to_out = t.chance(1, 4);
+  reproc_options opt;
+  memset(&opt, 0, sizeof(opt));
+  opt.fork = true;
+  opt.redirect.err.type = err_to_out ? REPROC_REDIRECT_STDOUT : REPROC_REDIRECT_PIPE;
+  opt.stop = { { REPROC_STOP_WAIT, 5000 }, { REPROC_STOP_KILL, 5000 }, { REPROC_STOP_NOOP, 0 } };
+  res.describe = J().kv("engine", "R, fork mode").kv("stdout_bytes", (unsigned long) out_n).kv("stderr_bytes", (unsigned long) err_n).kv("stderr_to_stdout", err_to_out).str();
+  res.cls("engine:fork-mode");
+  res.nontrivial = true;
+  res.hash = mix(0xf02c, (uint64_t) out_n * 100003 + (uint64_t) err_n * 7 + err_to_out);
+  auto fds0 = hz::snapshot_self_fds();
+  reproc_t *p = reproc_new();
+  fflush(nullptr);
+  int r = reproc_start(p, nullptr, opt);
+  if (r == 0) {
+    // ---- child ----
+    reproc_destroy(p);
+    std::vector<uint8_t> buf(65536);
+    for (int s = 1; s <= 2; s++) {
+      size_t n = s == 1 ? out_n : err_n, off = 0;
+      while (off < n) {
+        size_t k = std::min(buf.size(), n - off);
+        for (size_t i = 0; i < k; i++) buf[i] = pup_pattern(s, off + i);
+        ssize_t w = write(s, buf.data(), k);
+        if (w <= 0) _exit(3);
+        off += (size_t) w;
+      }
+    }
+    close(1);
+    close(2);
+    char c;
+    while (read(0, &c, 1) > 0) {
+    }
+    _exit(7);
+  }
+  if (r < 0) {
+    res.fail("fork-start-failed", "fork-mode start returned " + std::to_string(r));
+    reproc_destroy(p);
+    return res;
+  }
+  pid_t pid = reproc_pid(p);
+  size_t got[3] = { 0, 0, 0 };
+  bool eof[3] = { true, false, err_to_out };
+  size_t want[3] = { 0, err_to_out ? out_n + err_n : out_n, err_to_out ? 0 : err_n };
+  int64_t t_end = real_ms() + 8000;
+  std::vector<uint8_t> buf(65536);
+  while ((!eof[1] || !eof[2]) && res.kind == CaseResult::PASS) {
+    int64_t left = t_end - real_ms();
+    if (left <= 0) {
+      res.fail("fork-child-closed-stream-not-seen", std::string("the forked child closed its ") + (!eof[1] ? "stdout" : "stderr") + " and is still running, but no end-of-stream is reported (read " + std::to_string(got[1]) + "/" + std::to_string(want[1]) + " and " + std::to_string(got[2]) + "/" + std::to_string(want[2]) + " bytes)");
+      break;
+    }
+    reproc_event_source src = { p, (!eof[1] ? REPROC_EVENT_OUT : 0) | (!eof[2] ? REPROC_EVENT_ERR : 0), 0 };
+    int pr = reproc_poll(&src, 1, (int) std::min<int64_t>(left, 500));
+    if (pr < 0) {
+      res.fail("poll-error", "reproc_poll returned " + std::to_string(pr));
+      break;
+    }
+    for (int s = 1; s <= 2; s++) {
+      if (!(src.events & (s == 1 ? REPROC_EVENT_OUT : REPROC_EVENT_ERR))) continue;
+      int k = reproc_read(p, s == 1 ? REPROC_STREAM_OUT : REPROC_STREAM_ERR, buf.data(), buf.size());
+      if (k == REPROC_EPIPE) {
+        eof[s] = true;
+        if (got[s] != want[s]) res.fail("epipe-before-all-data", std::string(s == 1 ? "stdout" : "stderr") + ": closed-stream error after " + std::to_string(got[s]) + " of " + std::to_string(want[s]) + " bytes");
+      } else if (k > 0) {
+        if (!err_to_out)
+          for (int i = 0; i < k; i++)
+            if (buf[(size_t) i] != pup_pattern(s, got[s] + (size_t) i)) {
+              res.fail("bytes-differ", std::string(s == 1 ? "stdout" : "stderr") + " differs at offset " + std::to_string(got[s] + (size_t) i));
+              break;
+            }
+        got[s] += (size_t) k;
+        if (got[s] > want[s]) res.fail("bytes-invented", std::string(s == 1 ? "stdout" : "stderr") + ": more bytes than the child wrote");
+      } else {
+        res.fail("read-error", "reproc_read returned " + std::to_string(k));
+      }
+    }
+  }
+  if (res.kind == CaseResult::PASS && (hz::is_dead(pid) || !hz::pid_exists(pid))) res.inconclusive("the forked child ended before its stdin was closed");
+  int c = reproc_close(p, REPROC_STREAM_IN);
+  (void) c;
+  int st = reproc_wait(p, 8000);
+  if (res.kind == CaseResult::PASS && st != 7) res.fail(st == REPROC_ETIMEDOUT ? "stdin-no-eof" : "wrong-status", "after reproc_close(stdin) the forked child (which reads stdin to the end and exits with 7) gave " + std::to_string(st));
+  reproc_destroy(p);
+  if (hz::pid_exists(pid) && !hz::is_dead(pid)) {
+    kill(pid, SIGKILL);
+  }
+  hz::reap_quietly(pid);
+  std::string lsig, lp = hz::ledger_problems(fds0, lsig);
+  if (!lp.empty() && res.kind == CaseResult::PASS) res.fail(lsig, "after destroy: " + lp);
+  return res;
+}
+
 CaseResult run_case(Tape &t, long)
 {
-  // one case in ten is a real-clock bulk transfer
+  // one case in ten is a real-clock bulk transfer, one in twenty a fork-mode child
   if (t.chance(1, 10)) return run_r(t);
-  return run_v(t);
+  CaseResult v = run_v(t);
+  if (v.kind == CaseResult::PASS && t.chance(1, 20)) {
+    CaseResult f = run_f(t);
+    for (auto &c : f.classes) v.classes.push_back(c);
+    if (f.kind == CaseResult::FAIL) {
+      v.fail(f.sig, f.msg);
+      v.describe = f.describe;
+    }
+  }
+  return v;
 }
 
 }  // namespace
